@@ -39,6 +39,20 @@ fn replay_dispatch(check: &str, v: &Value) -> Vec<(String, String)> {
     }
 }
 
+/// Judge one case description ({"check": .., "case": .., optional "history": [..]}): the history
+/// cases are executed first, in order, in this same process; the clauses of the case itself are
+/// returned.
+fn judge_with_history(v: &Value) -> Vec<(String, String)> {
+    if let Some(h) = v["history"].as_array() {
+        for prior in h {
+            let check = prior["check"].as_str().unwrap_or("?").to_string();
+            let _ = replay_dispatch(&check, prior);
+        }
+    }
+    let check = v["check"].as_str().unwrap_or("?").to_string();
+    replay_dispatch(&check, v)
+}
+
 fn main() {
     sim::install_panic_hook();
     let args: Vec<String> = std::env::args().skip(1).collect();
@@ -56,7 +70,7 @@ fn main() {
             });
             let check = v["case"]["check"].as_str().unwrap_or("?").to_string();
             let want = v["clause"].as_str().unwrap_or("").to_string();
-            let got = replay_dispatch(&check, &v["case"]);
+            let got = judge_with_history(&v["case"]);
             let property = v["property"].as_str().unwrap_or(&check).to_string();
             match got.iter().find(|(c, _)| *c == want) {
                 Some((c, d)) => {
@@ -73,6 +87,17 @@ fn main() {
                     0
                 }
             }
+        }
+        Some("__judge") => {
+            // internal: judge a list of cases in order in this (fresh) process; write the clauses of the last
+            let text = std::fs::read_to_string(&args[1]).expect("judge input");
+            let v: Value = serde_json::from_str(&text).expect("judge input json");
+            let mut last: Vec<(String, String)> = Vec::new();
+            for c in v["cases"].as_array().cloned().unwrap_or_default() {
+                last = judge_with_history(&c);
+            }
+            std::fs::write(&args[2], serde_json::to_string(&last).unwrap()).expect("judge output");
+            0
         }
         Some("validate-rayon") => validate_rayon::run(seed),
         Some("selftest") => selftest::run(seed, args.get(1).and_then(|s| s.parse().ok()).unwrap_or(40)),
